@@ -1,0 +1,74 @@
+// SPDX-FileCopyrightText: 2026 The Pion community <https://pion.ly>
+// SPDX-License-Identifier: MIT
+
+//go:build verif
+
+// Machine-checked contracts for package turn (comment-only file; compiled only with -tags verif,
+// and even then it adds no code). Checked by /verif/turnvc against the go/ssa of this package.
+
+package turn
+
+//@      // ---- relay address generators (C20)
+//@ spec func validRange(r *RelayAddressGeneratorPortRange) bool = 1 <= int(r.MinPort) && int(r.MinPort) <= int(r.MaxPort) && r.Net != nil && r.Rand != nil && r.MaxRetries >= 0
+//@ spec func inRange(r *RelayAddressGeneratorPortRange, p int) bool = int(r.MinPort) <= p && p <= int(r.MaxPort)
+
+//@ func (*RelayAddressGeneratorPortRange).AllocatePacketConn
+//@   requires validRange(r)
+//@   at-call invoke github.com/pion/transport/v4.Net.ListenPacket assert [C20:network] arg0 == conf.Network
+//@   at-call invoke github.com/pion/transport/v4.Net.ListenPacket assert [C20:requested] conf.RequestedPort != 0 ==> arg1 == joinHostPort(r.Address, itoa(conf.RequestedPort))
+//@   at-call invoke github.com/pion/transport/v4.Net.ListenPacket assert [C20:in-range] conf.RequestedPort == 0 ==> inRange(r, int(port)) && arg1 == joinHostPort(r.Address, itoa(int(port)))
+//@   ensures [C20:clean-fail] res2 != nil ==> res0 == nil && res1 == nil
+//@   ensures [C15,C20:no-leak] res2 != nil ==> socketsOpened - socketsClosed == old(socketsOpened - socketsClosed)
+//@   ensures [C20:fresh-socket] res2 == nil ==> res0 != nil && res0 == lastBound && socketsOpened - socketsClosed == old(socketsOpened - socketsClosed) + 1
+//@   ensures [C20:advertised] res2 == nil ==> res1 == localAddrOf(res0) && typeis(res1, *net.UDPAddr) && sameSlice(res1.(*net.UDPAddr).IP, r.RelayAddress)
+//@   loop 0 invariant 0 <= try && validRange(r) && socketsOpened - socketsClosed == old(socketsOpened - socketsClosed)
+//@   loop 0 decreases r.MaxRetries - try
+
+//@ spec func listenTarget(addr string, network string, port int) string = tcpAddrString(resolvedTCP(network, joinHostPort(addr, itoa(port))))
+
+//@ func (*RelayAddressGeneratorPortRange).AllocateListener
+//@   requires validRange(r) && r.Address != "" && r.RelayAddress != nil
+//@   at-call invoke github.com/pion/transport/v4.ListenConfig.Listen assert [C20:network] arg1 == conf.Network
+//@   at-call invoke github.com/pion/transport/v4.ListenConfig.Listen assert [C20:requested] conf.RequestedPort != 0 ==> arg2 == listenTarget(r.Address, conf.Network, conf.RequestedPort)
+//@   at-call invoke github.com/pion/transport/v4.ListenConfig.Listen assert [C20:in-range] conf.RequestedPort == 0 ==> inRange(r, port) && arg2 == listenTarget(r.Address, conf.Network, port)
+//@   ensures [C20:clean-fail] res2 != nil ==> res0 == nil && res1 == nil
+//@   ensures [C15,C20:no-leak] res2 != nil ==> socketsOpened - socketsClosed == old(socketsOpened - socketsClosed)
+//@   ensures [C20:fresh-socket] res2 == nil ==> res0 != nil && res0 == lastBound && socketsOpened - socketsClosed == old(socketsOpened - socketsClosed) + 1
+//@   ensures [C20:advertised] res2 == nil ==> res1 == localAddrOf(res0) && typeis(res1, *net.TCPAddr) && sameSlice(res1.(*net.TCPAddr).IP, r.RelayAddress)
+//@   loop 0 invariant 0 <= try && validRange(r) && socketsOpened - socketsClosed == old(socketsOpened - socketsClosed)
+//@   loop 0 decreases r.MaxRetries - try
+
+//@ func (*RelayAddressGeneratorStatic).AllocatePacketConn
+//@   requires r.Net != nil
+//@   at-call invoke github.com/pion/transport/v4.Net.ListenPacket assert [C20:requested] arg0 == conf.Network && arg1 == joinHostPort(r.Address, itoa(conf.RequestedPort))
+//@   ensures [C20:clean-fail] res2 != nil ==> res0 == nil && res1 == nil
+//@   ensures [C15,C20:no-leak] res2 != nil ==> socketsOpened - socketsClosed == old(socketsOpened - socketsClosed)
+//@   ensures [C20:fresh-socket] res2 == nil ==> res0 != nil && res0 == lastBound && socketsOpened - socketsClosed == old(socketsOpened - socketsClosed) + 1
+//@   ensures [C20:advertised] res2 == nil ==> res1 == localAddrOf(res0) && typeis(res1, *net.UDPAddr) && sameSlice(res1.(*net.UDPAddr).IP, r.RelayAddress)
+
+//@ func (*RelayAddressGeneratorStatic).AllocateListener
+//@   requires r.Net != nil && r.Address != "" && r.RelayAddress != nil
+//@   at-call invoke github.com/pion/transport/v4.ListenConfig.Listen assert [C20:requested] arg1 == conf.Network && arg2 == listenTarget(r.Address, conf.Network, conf.RequestedPort)
+//@   ensures [C20:clean-fail] res2 != nil ==> res0 == nil && res1 == nil
+//@   ensures [C15,C20:no-leak] res2 != nil ==> socketsOpened - socketsClosed == old(socketsOpened - socketsClosed)
+//@   ensures [C20:fresh-socket] res2 == nil ==> res0 != nil && res0 == lastBound && socketsOpened - socketsClosed == old(socketsOpened - socketsClosed) + 1
+//@   ensures [C20:advertised] res2 == nil ==> res1 == localAddrOf(res0) && typeis(res1, *net.TCPAddr) && sameSlice(res1.(*net.TCPAddr).IP, r.RelayAddress)
+
+//@ func (*RelayAddressGeneratorNone).AllocatePacketConn
+//@   requires r.Net != nil
+//@   at-call invoke github.com/pion/transport/v4.Net.ListenPacket assert [C20:requested] arg0 == conf.Network && arg1 == joinHostPort(r.Address, itoa(conf.RequestedPort))
+//@   ensures [C20:clean-fail] res2 != nil ==> res0 == nil && res1 == nil
+//@   ensures [C15,C20:no-leak] res2 != nil ==> socketsOpened - socketsClosed == old(socketsOpened - socketsClosed)
+//@   ensures [C20:fresh-socket] res2 == nil ==> res0 != nil && res0 == lastBound && socketsOpened - socketsClosed == old(socketsOpened - socketsClosed) + 1
+//@   ensures [C20:advertised] res2 == nil ==> res1 == localAddrOf(res0)
+
+//@ func (*RelayAddressGeneratorNone).AllocateListener
+//@   requires r.Net != nil && r.Address != ""
+//@   at-call invoke github.com/pion/transport/v4.ListenConfig.Listen assert [C20:requested] arg1 == conf.Network && arg2 == listenTarget(r.Address, conf.Network, conf.RequestedPort)
+//@   ensures [C20:clean-fail] res2 != nil ==> res0 == nil && res1 == nil
+//@   ensures [C15,C20:no-leak] res2 != nil ==> socketsOpened - socketsClosed == old(socketsOpened - socketsClosed)
+//@   ensures [C20:fresh-socket] res2 == nil ==> res0 != nil && res0 == lastBound && socketsOpened - socketsClosed == old(socketsOpened - socketsClosed) + 1
+//@   ensures [C20:advertised] res2 == nil ==> res1 == localAddrOf(res0)
+
+//@ func (*RelayAddressGeneratorPortRange).Validate
+//@   ensures [C20:validate] res == nil ==> 1 <= int(r.MinPort) && 1 <= int(r.MaxPort) && r.RelayAddress != nil && r.Address != "" && r.Rand != nil && r.Net != nil && r.MaxRetries != 0
